@@ -1341,6 +1341,12 @@ tp_thread_dettach(tpt_p tpt) {
 	/* Not STOP: thread have to leave the loop, drain and call the stop
 	 * hook first, it set STOP by self as its last access. */
 	if (TP_THREAD_STATE_STOP != tpt->state) { /* No thread - nobody will set STOP. */
+		/* From other thread: idle thread sleep in wait for events and
+		 * does not look at state: let it do this by self (wake up). */
+		if (tpt != tpt_get_current() &&
+		    0 != tpt_is_running(tpt) &&
+		    0 == tpt_msg_send(tpt, NULL, 0, tpt_msg_shutdown_cb, NULL))
+			return (0);
 		tpt->state = TP_THREAD_STATE_STOPING;
 	}
 	return (0);
